@@ -17,7 +17,8 @@
      fast_of_net: Network.FastNetworkSolver; fast_load / fast_forward / fast_recursive / fast_relax /
      fast_outputs: the fast solver's LoadSensors / ForwardSteps / RecursiveSteps / Relax / ReadOutputs.
    Hypotheses common to all theorems: positions in range; Outputs is exactly the list of output neurons;
-   plain (not time-delayed) links, at most one per ordered pair; acyclic; every neuron reachable from a
+   plain (not time-delayed) links (several links on one ordered pair of nodes are allowed: their
+   contributions add up); acyclic; every neuron reachable from a
    sensor; every neuron's activation type registered.  The sensor vector has one value per input node. *)
 From NeatModel Require Import Res Net Fast SolverSpec SolverFast SolverBuild SolverMain SolverTopo SolverGraph SolverC12.
 From NeatModel Require Import F64 C12Cases.
@@ -32,7 +33,6 @@ Theorem C12_std_forward :
     NoDup (outputs n) ->
     (forall o, In o (outputs n) <-> o < nnodes n /\ is_output (role_at n o) = true) ->
     (forall p l, p < nnodes n -> In l (nd_in (node_at n p)) -> l_td l = false) ->
-    (forall p, p < nnodes n -> neuronb n p = true -> NoDup (map (@l_src R) (nd_in (node_at n p)))) ->
     acyclic n -> reachable n ->
     (forall p, p < nnodes n -> neuronb n p = true -> known (nd_act (node_at n p)) = true) ->
     forall x : list R, length x = length (positions_with n is_input) ->
@@ -53,7 +53,6 @@ Theorem C12_fast_forward :
     NoDup (outputs n) ->
     (forall o, In o (outputs n) <-> o < nnodes n /\ is_output (role_at n o) = true) ->
     (forall p l, p < nnodes n -> In l (nd_in (node_at n p)) -> l_td l = false) ->
-    (forall p, p < nnodes n -> neuronb n p = true -> NoDup (map (@l_src R) (nd_in (node_at n p)))) ->
     acyclic n -> reachable n ->
     (forall p, p < nnodes n -> neuronb n p = true -> known (nd_act (node_at n p)) = true) ->
     forall x : list R, length x = length (positions_with n is_input) ->
@@ -74,7 +73,6 @@ Theorem C12_fast_recursive :
     NoDup (outputs n) ->
     (forall o, In o (outputs n) <-> o < nnodes n /\ is_output (role_at n o) = true) ->
     (forall p l, p < nnodes n -> In l (nd_in (node_at n p)) -> l_td l = false) ->
-    (forall p, p < nnodes n -> neuronb n p = true -> NoDup (map (@l_src R) (nd_in (node_at n p)))) ->
     acyclic n -> reachable n ->
     (forall p, p < nnodes n -> neuronb n p = true -> known (nd_act (node_at n p)) = true) ->
     forall x : list R, length x = length (positions_with n is_input) ->
@@ -95,7 +93,6 @@ Theorem C12_fast_relax :
     NoDup (outputs n) ->
     (forall o, In o (outputs n) <-> o < nnodes n /\ is_output (role_at n o) = true) ->
     (forall p l, p < nnodes n -> In l (nd_in (node_at n p)) -> l_td l = false) ->
-    (forall p, p < nnodes n -> neuronb n p = true -> NoDup (map (@l_src R) (nd_in (node_at n p)))) ->
     acyclic n -> reachable n ->
     (forall p, p < nnodes n -> neuronb n p = true -> known (nd_act (node_at n p)) = true) ->
     forall x : list R, length x = length (positions_with n is_input) ->
@@ -118,7 +115,6 @@ Theorem C12_solvers_agree :
     NoDup (outputs n) ->
     (forall o, In o (outputs n) <-> o < nnodes n /\ is_output (role_at n o) = true) ->
     (forall p l, p < nnodes n -> In l (nd_in (node_at n p)) -> l_td l = false) ->
-    (forall p, p < nnodes n -> neuronb n p = true -> NoDup (map (@l_src R) (nd_in (node_at n p)))) ->
     acyclic n -> reachable n ->
     (forall p, p < nnodes n -> neuronb n p = true -> known (nd_act (node_at n p)) = true) ->
     forall x : list R, length x = length (positions_with n is_input) ->
@@ -147,7 +143,6 @@ Theorem C12_topo_is_the_solution :
     NoDup (outputs n) ->
     (forall o, In o (outputs n) <-> o < nnodes n /\ is_output (role_at n o) = true) ->
     (forall p l, p < nnodes n -> In l (nd_in (node_at n p)) -> l_td l = false) ->
-    (forall p, p < nnodes n -> neuronb n p = true -> NoDup (map (@l_src R) (nd_in (node_at n p)))) ->
     acyclic n -> reachable n ->
     forall x : list R,
       (forall p, p < nnodes n -> neuronb n p = true ->
@@ -163,10 +158,10 @@ Theorem C12_topo_is_the_solution :
             v (nth i (positions_with n is_input) 0) = nth i x 0%R) ->
          forall p, p < nnodes n -> v p = topo_eval n f x p).
 Proof.
-  intros n f H1 H2 H3 H4 H5 H6 H7 x.
-  destruct (c12_topo_solves n f H1 H2 H3 H4 H5 H6 H7 x) as [S [B I]].
+  intros n f H1 H2 H3 H4 H5 H6 x.
+  destruct (c12_topo_solves n f H1 H2 H3 H4 H5 H6 x) as [S [B I]].
   split; [exact S|]. split; [exact B|]. split; [exact I|].
-  intros v Sv Bv Iv. exact (c12_topo_unique n f H1 H2 H3 H4 H5 H6 H7 x v Sv (conj Bv Iv)).
+  intros v Sv Bv Iv. exact (c12_topo_unique n f H1 H2 H3 H4 H5 H6 x v Sv (conj Bv Iv)).
 Qed.
 Print Assumptions C12_topo_is_the_solution.
 
@@ -189,7 +184,6 @@ Example C12_example_hypotheses :
   net_ok ex12 = true /\ NoDup (outputs ex12) /\
   (forall o, In o (outputs ex12) <-> o < nnodes ex12 /\ is_output (role_at ex12 o) = true) /\
   (forall p l, p < nnodes ex12 -> In l (nd_in (node_at ex12 p)) -> l_td l = false) /\
-  (forall p, p < nnodes ex12 -> neuronb ex12 p = true -> NoDup (map (@l_src R) (nd_in (node_at ex12 p)))) /\
   acyclic ex12 /\ reachable ex12 /\ inputs ex12 = positions_with ex12 is_sensor /\
   depth ex12 (lp ex12 (nnodes ex12)) = 2.
 Proof.
@@ -213,8 +207,6 @@ Proof.
   split.
   { intros p l Hp Hl. rewrite Hin in Hl. destruct p as [|[|[|[|p]]]]; simpl in Hl; try tauto;
       repeat (destruct Hl as [<-|Hl]; [reflexivity|]); destruct Hl. }
-  split.
-  { intros p Hp Hn. rewrite Hin. destruct p as [|[|[|[|p]]]]; simpl; repeat constructor; simpl; intuition lia. }
   split.
   { apply (rank_acyclic ex12 (fun p => p)). intros q p (Hp & Hn & l & Hl & Hs). rewrite Hin in Hl.
     destruct p as [|[|[|[|p]]]]; simpl in Hl; try tauto;
@@ -245,6 +237,24 @@ Example C12_example_float :
     let fx := fast_trace F64num (C12Cases.fact []) fn (fast_init F64num fn) [OLoad [2%float]; ORelax 4 0%float; ORelax 4 0%float; ORelax 4 0%float] in
     map snd std = [[0%float]; [3.625%float]] /\ nth 1 (map snd ff) [] = [3.625%float] /\
     nth 1 (map snd fr) [] = [3.625%float] /\ nth 3 (map snd fx) [] = [3.625%float].
+Proof. eexists. split; [vm_compute; reflexivity|]. vm_compute. repeat split. Qed.
+
+(* ---- parallel links (two links on one ordered pair of nodes) are inside the theorems above: Input(0) -> Output(1,
+   linear) by links of weights 2 and 3, x = [1].  NewFastModularNetworkSolver lists the source once in
+   reverseAdjacentList and holds the SUM of the two weights in adjacentMatrix, so RecursiveSteps returns 2*1 + 3*1 = 5
+   like the other three computations (it returned 3*1 + 3*1 = 6 while the later weight overwrote the earlier one) ---- *)
+Definition ex12p : net float :=
+  mkNet [mkNode Input 17 []; mkNode Output 14 [mkLink 0 2%float false; mkLink 0 3%float false]] [0] [1].
+
+Example C12_example_parallel_links :
+  exists fn, fast_of_net F64num ex12p = Ok fn /\
+    radj fn 1 = [0] /\ adj_w F64num fn 0 1 = 5%float /\
+    let std := std_trace F64num (C12Cases.fact []) ex12p (std_init F64num ex12p) [OLoad [1%float]; OForward 1] in
+    let ff := fast_trace F64num (C12Cases.fact []) fn (fast_init F64num fn) [OLoad [1%float]; OForward 1] in
+    let fr := fast_trace F64num (C12Cases.fact []) fn (fast_init F64num fn) [OLoad [1%float]; ORecursive] in
+    let fx := fast_trace F64num (C12Cases.fact []) fn (fast_init F64num fn) [OLoad [1%float]; ORelax 1 0%float] in
+    nth 1 (map snd std) [] = [5%float] /\ nth 1 (map snd ff) [] = [5%float] /\
+    nth 1 (map snd fr) [] = [5%float] /\ nth 1 (map snd fx) [] = [5%float].
 Proof. eexists. split; [vm_compute; reflexivity|]. vm_compute. repeat split. Qed.
 (* ================================================================================================== *)
 (* agent-modules: feed-forward networks WITH modules (control nodes)                                    *)
